@@ -41,9 +41,9 @@ def valid(case) -> bool:
         return False
     if tail[0] == "iter" and not case["decode"]:
         return False
-    if tail[0] == "data" and case.get("via") != "pool-preload":
+    if tail[0] == "data" and case.get("via") not in ("pool-preload", "pool-retry-preload"):
         return False
-    if case.get("via") == "pool-preload" and (case["ops"] or tail[0] != "data"):
+    if case.get("via") in ("pool-preload", "pool-retry-preload") and (case["ops"] or tail[0] != "data"):
         return False
     return True
 
@@ -68,7 +68,7 @@ def run_case(case) -> list[Failure]:
     if (case.get("cl_list") and case["framing"] != "cl") or case.get("hexfmt", "x") not in ("x", "X", "04x"):
         raise core.InvalidCase
     # (http.client cannot parse "N, N" and reads such a body until the server closes, so the server closes)
-    srv = respgen.OneShot(head + body, case.get("seg"), eof=(case["framing"] == "close" or bool(case.get("cl_list"))))
+    srv = respgen.OneShot(head + body, case.get("seg"), eof=(case["framing"] == "close" or bool(case.get("cl_list"))), drop_first=str(case.get("via", "")).startswith("pool-retry"))
     sig = {"framing": case["framing"], "coded": bool([c for c in case.get("coding", []) if c != "identity"]), "decode": decode}
     if mixed:
         sig["mixed_families"] = True
@@ -81,9 +81,12 @@ def run_case(case) -> list[Failure]:
             conn.request("GET", "/", preload_content=False, decode_content=decode)
             resp = conn.getresponse()
         else:
-            pool = urllib3.HTTPConnectionPool("h.test", 80, retries=False)
+            if via not in ("pool", "pool-preload", "pool-retry", "pool-retry-preload"):
+                raise core.InvalidCase
+            # pool-retry*: the first connection is closed by the server without a reply; the response read is that of the re-sent request
+            pool = urllib3.HTTPConnectionPool("h.test", 80, retries=(1 if via.startswith("pool-retry") else False))
             try:
-                resp = pool.urlopen("GET", "/", preload_content=(via == "pool-preload"), decode_content=decode)
+                resp = pool.urlopen("GET", "/", preload_content=via.endswith("preload"), decode_content=decode)
             except BaseException as e:  # noqa: BLE001
                 return [Failure("valid-data-error", {**sig, "api": "preload", "exc": type(e).__name__}, f"{_brief(case)}: urlopen raised {type(e).__name__}: {e}")]
         try:
@@ -221,9 +224,9 @@ def _hyp():
         ops = draw(st.lists(op, max_size=6))
         via = "conn"
         if t[0] == "data":
-            via, ops = "pool-preload", []
+            via, ops = draw(st.sampled_from(["pool-preload", "pool-preload", "pool-retry-preload"])), []
         elif draw(st.integers(0, 4)) == 0:
-            via = "pool"
+            via = draw(st.sampled_from(["pool", "pool-retry"]))
         if t[0] == "read_chunked" and framing != "chunked":
             framing, cs = "chunked", cs or [7]
         if t[0] == "iter":
